@@ -9,7 +9,7 @@ import os
 import sys
 
 import gen_regmaps as G
-from vplib import Case, Check, Rng, VERIF, zlit
+from vplib import Case, Check, Rng, VERIF, NPROC, zlit
 
 USIZE_MAX = (1 << 64) - 1
 E_NR, E_NW, E_IA, E_ID = 40, 41, 42, 43
@@ -125,6 +125,37 @@ class Spec:
         if k == "w":
             e = self.typed_write(m.regs[o[1]], o[2])
             return [[0]] if e is None else [[1, e]]
+        if k == "pa":
+            r, data = m.regs[o[1]], bytes(o[2])
+            if len(data) != r.len:
+                return None          # Register::parse on a slice that is not the register: outside the property
+            save = bytes(self.mem[r.addr:r.addr + r.len])
+            self.mem[r.addr:r.addr + r.len] = data
+            t, v = self.typed_read(r)
+            self.mem[r.addr:r.addr + r.len] = save
+            if t == "err":
+                return [[1, v]]
+            return [[0, v]] if isinstance(v, int) else [[0, len(v)] + list(v)]
+        if k == "se":
+            r, v = m.regs[o[1]], o[2]
+            if r.kind == "bf":
+                lsb, msb = r.norm_field()
+                w = msb - lsb + 1
+                lo, hi = (-(1 << (w - 1)), (1 << (w - 1)) - 1) if r.signed else (0, (1 << w) - 1)
+                if v < lo or v > hi:
+                    return [[1, E_ID]]
+                img = ((v % (1 << w)) << lsb).to_bytes(r.bits // 8, "little" if r.endian == "LE" else "big")
+            elif r.kind in ("int", "float"):
+                img = (v % (1 << r.bits)).to_bytes(r.bits // 8, "little" if r.endian == "LE" else "big")
+            elif r.kind == "bytes":
+                if len(v) != r.len:
+                    return [[1, E_ID]]
+                img = bytes(v)
+            else:
+                if any(b >= 128 for b in v) or len(v) > r.len:
+                    return [[1, E_ID]]
+                img = bytes(v) + bytes(r.len - len(v))
+            return [[0, len(img)] + list(img)]
         if k == "rr":
             s, e = o[1], o[2]
             if not (s <= e <= self.size):
@@ -174,6 +205,9 @@ class Spec:
             out.append(len(m.regs))
             for r in m.regs:
                 out += [r.addr, r.len, G.AR_NUM[r.acc]]
+            for r in m.regs:
+                if r.kind == "bf":
+                    out += [r.ty[3], r.ty[4]]         # the constants LSB / MSB are the declared numbers
             return [out]
         raise ValueError(k)
 
@@ -194,6 +228,8 @@ def pred_map(c, out):
     pos = 1
     for i, o in enumerate(ops):
         alts = sp.op(o)
+        if alts is None:
+            return None              # the rest of the case is outside the property's quantifier (model-compared only)
         for a in alts:
             if out[pos:pos + len(a)] == a:
                 pos += len(a)
@@ -256,7 +292,7 @@ def pred_ar(c, out):
 
 
 def predicate(c, out):
-    return {"M": pred_map, "P": pred_prot, "A": pred_ar}[c.kind](c, out)
+    return {"M": pred_map, "P": pred_prot, "A": pred_ar, "D": pred_decl}[c.kind](c, out)
 
 
 def nontrivial(c, out):
@@ -290,6 +326,10 @@ def op_coq(m, o):
         return "ORead %d" % o[1]
     if k == "w":
         return "OWrite %d %s" % (o[1], coq_val(m.regs[o[1]], o[2]))
+    if k == "pa":
+        return "OParse %d %s" % (o[1], G.coq_bytes(o[2]))
+    if k == "se":
+        return "OSerialize %d %s" % (o[1], coq_val(m.regs[o[1]], o[2]))
     if k == "rr":
         return "OReadRaw %d %d" % (o[1], o[2])
     if k == "wr":
@@ -491,6 +531,34 @@ def gen_cases(ck, maps):
                             ops += [("poke", bytes(r.addr) + img + bytes(m.size - r.addr - L)), ("r", k)]
             cases.append(map_case(m, ops, "typed-roundtrip"))
 
+    # ---- Register::parse / serialize called directly (also on slices that are not the register) ---------------
+    for m in use:
+        if "bf" in m.tags and not (m.regs[1].bits == 8 or rng.chance(1, 3)):
+            continue
+        for k, r in enumerate(m.regs):
+            if "bf" in m.tags and r.kind == "bf" and not rng.chance(1, 4):
+                continue
+            ops, tail = [], []
+            L = r.len
+            if r.kind in ("int", "float", "bf"):
+                vals = field_values(r, rng, 2, False) if r.kind == "bf" else sorted(type_values(r.bits, r.signed, rng, 3)[2])
+                ops += [("se", k, v) for v in vals[:14]]
+                ops += [("pa", k, bytes(rng.bytes(L))) for _ in range(4)] + [("pa", k, b"\xff" * L), ("pa", k, bytes(L))]
+                tail = [("pa", k, bytes(rng.bytes(n))) for n in (L + 1, L + 3, max(0, L - 1), 0)]
+            elif r.kind == "bytes":
+                ops += [("se", k, bytes(rng.bytes(n))) for n in (L, L + 1, max(0, L - 1), 0)]
+                ops += [("pa", k, bytes(rng.bytes(L)))]
+                tail = [("pa", k, bytes(rng.bytes(n))) for n in (L + 2, 0, 1)]
+            else:
+                ops += [("se", k, v) for v in (b"", b"a" * L, b"b" * (L + 1), b"c" * max(0, L - 1), "é".encode(), b"x\0y"[:L + 1])]
+                ops += [("pa", k, (v + bytes(L))[:L]) for v in (b"", b"ab", b"a\0b", b"\xc3\xa9", b"\x80", b"q" * L)]
+                tail = [("pa", k, v) for v in (b"q" * (L + 2), b"q" * (L + 2) + b"\0z", b"ab\0" + b"c" * L, b"\0")]
+                tail += [("pa", k, b"q" * max(0, L - 1))]     # shorter and no NUL: slice index panic, last op of the case
+            # ops on slices of another length come last: outside the property, compared with the model only
+            for t in tail[:-1]:
+                cases.append(map_case(m, ops + [t], "codec"))
+            cases.append(map_case(m, ops + tail[-1:], "codec"))
+
     # ---- raw access: every (start, end) / (addr, len) around the map -------------------------------------
     specials = [USIZE_MAX, USIZE_MAX - 1, 1 << 63, 1 << 32]
     for m in use:
@@ -575,6 +643,85 @@ def rng_perm(rng, n):
     return xs
 
 
+# ======================================================================= declarations: what the macro accepts ===
+DECL_REASONS = ("register length must be equal", "msb exceeds register length", "expectd LSB",
+                "custom attribute panicked")
+
+
+def run_declarations(ck, only=None):
+    """Compile every single-register declaration of G.declarations() against the REAL macros (one bin target each,
+    `cargo check --keep-going`, offline, shared target dir) -> [1] accepted / [0, k] refused with reason k /
+    [5] failed for an unrelated reason; the model side is decl_accepts true; the predicate is
+    G.decl_accepted_by_property."""
+    import shutil
+    import vplib
+    decls = G.declarations()
+    d = os.path.join(vplib.CACHE, "c20_decl")
+    shutil.rmtree(d, ignore_errors=True)
+    os.makedirs(os.path.join(d, "src", "bin"))
+    with open(os.path.join(d, "Cargo.toml"), "w") as f:
+        f.write('[package]\nname = "c20_decl"\nversion = "0.0.0"\nedition = "2018"\n\n[workspace]\n\n'
+                '[dependencies]\ncameleon-impl = { path = "%s/impl" }\n\n'
+                '[profile.dev]\nopt-level = 0\ndebug = false\nincremental = false\n' % vplib.REPO)
+    lock = os.path.join(vplib.REPO, "Cargo.lock")
+    if os.path.exists(lock):
+        shutil.copy(lock, os.path.join(d, "Cargo.lock"))
+    idx = [i for i in range(len(decls)) if only is None or i in only]
+    for i in idx:
+        name, e, r = decls[i]
+        with open(os.path.join(d, "src", "bin", "d%d.rs" % i), "w") as f:
+            f.write("// %s\n" % name + G.decl_rust(e, r))
+    with vplib.Lock("cargo"):
+        rc, out = vplib.sh(["cargo", "check", "--offline", "--keep-going", "--bins", "--message-format=json",
+                            "-j", str(min(4, vplib.NPROC))], cwd=d, timeout=900)
+    ok, errs = set(), {}
+    for line in out.splitlines():
+        if not line.startswith("{"):
+            continue
+        try:
+            j = json.loads(line)
+        except ValueError:
+            continue
+        t = (j.get("target") or {}).get("name", "")
+        if j.get("reason") == "compiler-artifact" and "bin" in (j.get("target") or {}).get("kind", []):
+            ok.add(t)
+        elif j.get("reason") == "compiler-message" and (j.get("message") or {}).get("level") == "error":
+            m = j["message"]
+            txt = m.get("message", "") + " " + " ".join(c.get("message", "") for c in m.get("children", []))
+            errs.setdefault(t, []).append(txt)
+    cases, impl, terms = [], [], []
+    for i in idx:
+        name, e, r = decls[i]
+        t = "d%d" % i
+        if t in ok and t not in errs:
+            res = [1]
+        elif t in errs:
+            txt = " ".join(errs[t])
+            ks = [k for k, w in enumerate(DECL_REASONS) if w in txt]
+            res = [0] if ks else [5]
+        else:
+            res = [5]       # neither built nor diagnosed: the dependency itself did not build
+        c = FCase("D", [], meta=(i, name, e, r, " | ".join(errs.get(t, []))[:300]),
+                  term="[b2z (decl_accepts true %s %s)]" % (e, G.coq_reg(r)), rline="D %d %s" % (i, name))
+        c.fam = "declarations"
+        cases.append(c)
+        impl.append(res)
+    model = ck.run_model_terms(["Memory"], [c.term for c in cases], jobs=1)
+    return cases, impl, model
+
+
+def pred_decl(c, out):
+    i, name, e, r, msg = c.meta
+    want = G.decl_accepted_by_property(e, r)
+    if out == [5] or out is None:
+        return "declaration %s failed to compile for a reason that is not a refusal of the declaration: %s" % (name, msg)
+    got = out == [1]
+    if got != want:
+        return ("declaration %s (len = %d, ty = %s, %s) is %s by the macro, the property requires it to be %s"
+                % (name, r.len, G.rust_ty(r), e, "accepted" if got else "refused", "accepted" if want else "refused"))
+    return None
+
+
 # ================================================================================================ main ===
 RULE = ("family of register maps instantiated with the real macros: every (lsb,msb) BitField of u8/i8, the pairs over "
         "edge bits {0,1,7,8,bits-2,bits-1} of 16/32/64-bit types (thorough: every pair of 16-bit types and a wider edge "
@@ -584,7 +731,10 @@ RULE = ("family of register maps instantiated with the real macros: every (lsb,m
         "(min-1..max+1, powers of two) + random above, prior contents ones/random/alternating/zero; raw access: every "
         "(start,end) and (addr,len) up to size+2 incl. reversed, empty and usize::MAX-scale; MemoryProtection: all 256 "
         "assignments of one block + random set/get/range histories over sizes 0..33; random histories mixing "
-        "set_access_right / observers / typed / raw access; real code vs model/Memory.v by vm_compute; predicate = "
+        "set_access_right / observers / typed / raw access; Register::parse / serialize called directly on register-sized "
+        "and other slices; 52 single-register declarations (every numerical type with matching / shorter / longer len, "
+        "String / Bytes lengths, BitField positions at and beyond the limits in both numberings) compiled against the "
+        "real macro with cargo check and compared with decl_accepts; real code vs model/Memory.v by vm_compute; predicate = "
         "independent Python reference with per-byte (R,W) cells; non-trivial = at least one op result")
 
 
@@ -613,6 +763,15 @@ def main():
         if r.get("kind") != "case":
             print(json.dumps(r, indent=1)[:4000])
             sys.exit(0)
+        if r["case"].startswith("D "):
+            k = int(r["case"].split()[1])
+            dcases, dimpl, dmodel = run_declarations(ck, only={k})
+            print("case     :", r["case"], dcases[0].meta[4])
+            print("impl     :", dimpl[0])
+            print("model    :", dmodel[0])
+            print("predicate:", predicate(dcases[0], dimpl[0]) or "holds")
+            ck.compare(dcases, dimpl, dmodel, predicate, nontrivial, family="declarations")
+            ck.finish()
         c = case_from_line(r["case"], maps)
         prelude = "".join(G.coq_map(m) for m in maps if c.kind == "M" and m is c.meta[0])
         impl = ck.run_impl(binary, [c.line])
@@ -625,9 +784,9 @@ def main():
         ck.finish()
     cases = gen_cases(ck, maps)
     ck.phase("generate")
-    impl = ck.run_impl(binary, [c.line for c in cases], jobs=16)
+    impl = ck.run_impl(binary, [c.line for c in cases], jobs=min(16, NPROC))
     ck.phase("impl")
-    model = ck.run_model_terms(["Memory"], [c.term for c in cases], per_eval=20, prelude=prelude, jobs=16)
+    model = ck.run_model_terms(["Memory"], [c.term for c in cases], per_eval=20, prelude=prelude, jobs=min(16, NPROC))
     ck.phase("model")
     fams = []
     for c in cases:
@@ -637,6 +796,12 @@ def main():
         idx = [i for i, c in enumerate(cases) if c.fam == fam]
         ck.compare([cases[i] for i in idx], [impl[i] for i in idx], [model[i] for i in idx], predicate, nontrivial,
                    family=fam, correspondence="rust/h_impl (real macros) vs model/Memory.v")
+    dcases, dimpl, dmodel = run_declarations(ck)
+    ck.phase("declarations")
+    # the model answers [1] / [0]; the implementation's refusal reason is not compared
+    ck.compare(dcases, [[1] if x == [1] else [0] if x == [0] else x for x in dimpl], dmodel, predicate, nontrivial,
+               family="declarations", correspondence="real macro accepts/refuses vs decl_accepts (model/Memory.v)")
+    ck.dist["declarations_refused"] = sum(1 for x in dimpl if x == [0])
     ck.dist["ops"] = sum(len(c.meta[1]) for c in cases if c.kind in ("M", "P"))
     ck.dist["registers_instantiated"] = sum(len(m.regs) for m in prelude_maps)
     ck.finish()
@@ -654,7 +819,7 @@ def case_from_line(line, maps):
         c = FCase("A", [], term="ar_table", rline="A")
         c.fam = "lattice"
         return c
-    arity = {"r": 1, "w": 2, "rr": 2, "wr": 2, "sa": 2, "ga": 1, "ob": 1, "oc": 0, "dump": 0, "poke": 1, "lay": 0,
+    arity = {"r": 1, "w": 2, "pa": 2, "se": 2, "rr": 2, "wr": 2, "sa": 2, "ga": 1, "ob": 1, "oc": 0, "dump": 0, "poke": 1, "lay": 0,
              "ps": 2, "pg": 1, "psr": 3, "pr": 2, "pv": 1, "pvr": 2}
     ops = []
     i = 2
